@@ -114,8 +114,20 @@ def perturbed(m):
 #       -999..9999), segment id 73-76, element 77-78; CONECT: pairs of serials, no type, no order, hence
 #       needs distinct serials; TER delimits chains; residues are delimited only by a change of
 #       resSeq/iCode/resName; atoms of one residue are told apart by name (a repeated name is an alternate
-#       location).  The reader renames residues/atoms of standard residues and adds their template bonds,
-#       so only plain (non-standard) residue names are representable unchanged.
+#       location).
+#       Standard residues (the 20 amino acids, the nucleotides, HOH — PDB_STANDARD below, the PDB convention
+#       "CONECT is for HET groups and disulfides"): their internal bonds and the peptide link to the previous
+#       residue of the chain are IMPLIED by the residue templates (PDB chemical component dictionary; copied
+#       for GLY/CYS/HOH into STD_TEMPLATES) and are not written.  Consequences, all carrier limitations:
+#         - the absence of an implied bond between two present atoms cannot be expressed (a reader re-creates
+#           it), so a topology lacking one is not representable and the event is not issued;
+#         - a bond between two standard residues that is not implied and is not a CYS SG - CYS SG disulfide has
+#           no record: not judged (neither its loss nor its survival);
+#         - atom/residue names of standard residues are normalised by a reader (H1 -> H, O1 -> O, CYX -> CYS):
+#           only whitelisted canonical atom names (STD_ATOMS) are representable unchanged.
+#       Every bond with at least one end in a non-standard residue (ligand, ion, glycan) and every disulfide
+#       travels in CONECT records (any number of partners: a CONECT line holds four, further lines continue)
+#       and must survive.
 CAPABILITY = {
     "df": {"name": True, "element": True, "serial": True, "resName": True, "resSeq": True, "segment_id": True,
            "chain_id": False, "bond_type": True, "bond_order": True, "residue_boundaries": "by (resSeq,resName) change"},
@@ -123,8 +135,48 @@ CAPABILITY = {
            "chain_id": False, "bond_type": False, "bond_order": False, "residue_boundaries": "explicit"},
     "pdb": {"name": "<=4 chars", "element": "<=2 chars", "serial": "distinct ints 0..99999", "resName": "<=3 chars, plain",
             "resSeq": "-999..9999", "segment_id": "<=4 chars", "chain_id": "1 char", "bond_type": False,
-            "bond_order": False, "residue_boundaries": "by (resSeq,resName) change"},
+            "bond_order": False, "residue_boundaries": "by (resSeq,resName) change",
+            "bonds": "non-standard residue at either end, or CYS SG-SG: CONECT, must survive; implied by a standard "
+                     "residue template / peptide link: must be present before and after; other standard-standard "
+                     "bonds: no record, not judged"},
 }
+
+
+PDB_STANDARD = frozenset(["ALA", "ASN", "CYS", "GLU", "HIS", "LEU", "MET", "PRO", "THR", "TYR", "ARG", "ASP", "GLN", "GLY",
+                          "ILE", "LYS", "PHE", "SER", "TRP", "VAL", "A", "G", "C", "U", "I", "DA", "DG", "DC", "DT", "DI",
+                          "HOH"])
+# template bonds (chemical component dictionary; "-C" = atom C of the previous residue of the chain)
+STD_TEMPLATES = {
+    "GLY": [("-C", "N"), ("C", "CA"), ("C", "O"), ("C", "OXT"), ("CA", "HA2"), ("CA", "HA3"), ("CA", "N"), ("H", "N"),
+            ("H2", "N"), ("H3", "N"), ("HXT", "OXT")],
+    "CYS": [("-C", "N"), ("C", "CA"), ("C", "O"), ("C", "OXT"), ("CA", "CB"), ("CA", "HA"), ("CA", "N"), ("CB", "HB2"),
+            ("CB", "HB3"), ("CB", "SG"), ("H", "N"), ("H2", "N"), ("H3", "N"), ("HG", "SG"), ("HXT", "OXT")],
+    "HOH": [("H1", "O"), ("H2", "O")],
+}
+# canonical atom names a reader leaves alone
+STD_ATOMS = {"GLY": frozenset(["N", "CA", "C", "O"]), "CYS": frozenset(["N", "CA", "C", "O", "CB", "SG"]),
+             "HOH": frozenset(["O", "H1", "H2"])}
+
+
+def pdb_implied_bonds(m):
+    """Bonds the PDB convention implies between atoms that are present: template bonds inside standard residues
+    and the -C/N link to the previous residue of the same chain."""
+    implied = set()
+    res = residues_of(m)
+    for k, r in enumerate(res):
+        tpl = STD_TEMPLATES.get(r[2])
+        if tpl is None:
+            continue
+        here = {m["atoms"][i][NAME]: i for i in r[5]}
+        prev = {}
+        if k > 0 and res[k - 1][1] == r[1]:
+            prev = {m["atoms"][i][NAME]: i for i in res[k - 1][5]}
+        for f, t in tpl:
+            i = prev.get(f[1:]) if f.startswith("-") else here.get(f)
+            j = prev.get(t[1:]) if t.startswith("-") else here.get(t)
+            if i is not None and j is not None:
+                implied.add((min(i, j), max(i, j)))
+    return implied
 
 
 def _is_int(x):
@@ -156,8 +208,13 @@ def carrier_image(m, carrier, plain_resnames=()):
         for a in m["atoms"]:
             if not (isinstance(a[NAME], str) and 1 <= len(a[NAME]) <= 4 and a[NAME].strip() == a[NAME] and " " not in a[NAME]):
                 return None, "atom name does not fit columns 13-16"
-            if not (isinstance(a[RESNAME], str) and 1 <= len(a[RESNAME]) <= 3 and a[RESNAME] in plain_resnames):
-                return None, "residue name is not a plain <=3 character name"
+            if not (isinstance(a[RESNAME], str) and 1 <= len(a[RESNAME]) <= 3):
+                return None, "residue name does not fit columns 18-20"
+            if a[RESNAME] in STD_ATOMS:
+                if a[NAME] not in STD_ATOMS[a[RESNAME]]:
+                    return None, "atom name in a standard residue that a reader may normalise"
+            elif a[RESNAME] not in plain_resnames or a[RESNAME] in PDB_STANDARD:
+                return None, "residue name is neither a plain name nor a modelled standard residue"
             if not (_is_int(a[RESSEQ]) and -999 <= a[RESSEQ] <= 9999):
                 return None, "resSeq does not fit columns 23-26"
             if len(a[ELEM]) > 2:
@@ -176,12 +233,21 @@ def carrier_image(m, carrier, plain_resnames=()):
             cid = a[CID] if (isinstance(a[CID], str) and len(a[CID]) == 1 and a[CID].strip()) else ANY
             seg = a[SEG] if (isinstance(a[SEG], str) and len(a[SEG]) <= 4 and a[SEG].strip() == a[SEG]) else ANY
             atoms.append((a[NAME], a[ELEM], s, a[RESNAME], a[RESSEQ], seg, a[RPOS], a[CPOS], cid))
+        implied = pdb_implied_bonds(m)
+        have = {(i, j) for (i, j, _t, _o) in m["bonds"]}
+        if not implied <= have:
+            return None, "the topology lacks a bond that the PDB convention implies between present atoms"
         seen = set()
+        optional = set()
         for (i, j, t, o) in m["bonds"]:
             if (i, j) not in seen:              # CONECT is a graph: a doubled bond cannot be held twice
                 seen.add((i, j))
                 bonds.append((i, j, ANY, ANY))
-        return {"atoms": atoms, "bonds": bonds}, None
+                ai, aj = m["atoms"][i], m["atoms"][j]
+                if ai[RESNAME] in PDB_STANDARD and aj[RESNAME] in PDB_STANDARD and (i, j) not in implied and not (
+                        ai[RESNAME] == aj[RESNAME] == "CYS" and ai[NAME] == aj[NAME] == "SG"):
+                    optional.add((i, j))        # no record for it: neither loss nor survival is judged
+        return {"atoms": atoms, "bonds": bonds, "optional": optional}, None
     raise ValueError(carrier)
 
 
@@ -397,6 +463,10 @@ def compare(exp, got):
             out.append((FIELD_NAMES[f], "+".join(classes),
                         "%s of atom %d: expected %r, got %r (%d atoms differ)" % (FIELD_NAMES[f], bad[0][0], bad[0][1],
                                                                                 bad[0][2], len(bad))))
+    opt = exp.get("optional", ())
+    if opt:
+        exp = {"atoms": ea, "bonds": [b for b in exp["bonds"] if (b[0], b[1]) not in opt]}
+        got = {"atoms": ga, "bonds": [b for b in got["bonds"] if (b[0], b[1]) not in opt]}
     eb = sorted((i, j) for (i, j, _t, _o) in exp["bonds"])
     gb = sorted((i, j) for (i, j, _t, _o) in got["bonds"])
     if eb != gb:
